@@ -64,6 +64,10 @@ CLAIMED = {
             "for every cluster of every explored SBC run (the C01 families, incl. those where cleaning removes atoms) and every listed call history, the shortcut's value is compared with get_dimensionality on the cluster's atoms with the radii/threshold used",
             "same bounded families as C01; differential oracle (correctness of the reference function itself is C09)",
             "DESIGN.md §4 C13"),
+    "C17": ("exhaustive enumeration of structure families x parameter deviations + exhaustive call-sequence exploration on one Classifier",
+            "every structure of the listed families is classified on a fresh Classifier and each clause (class vs dimensionality, region partition/coverage, prototype cell, input snapshot, repeated call) is evaluated; every sequence A,B,(C,)A over 6 representative systems on one instance is compared with fresh instances",
+            "dimensionality reference is the library's own get_dimensionality (checked by C09) plus the bonding-graph model for <=6 atoms; bounded families",
+            "DESIGN.md §4 C17"),
 }
 NA_REASON = "check not built yet in this round; see DESIGN.md §7 order of work"
 
